@@ -135,6 +135,20 @@ def derivMatch (r : RE) (p : Option Ch) : List Ch → Option Ch → Bool
   | [], n => nullable r p n
   | c :: w, n => derivMatch (deriv p c r) (some c) w n
 
+/-- does some prefix of `w` (followed by the rest of `w`, then `n`) match `r`? -/
+def prefixMatch (r : RE) (p : Option Ch) : List Ch → Option Ch → Bool
+  | [], n => nullable r p n
+  | c :: w, n => nullable r p (some c) || prefixMatch (deriv p c r) (some c) w n
+
+/-- the leftmost position `≥ k` of `s` at which a match of `r` starts (F&O 5.6: matching proceeds
+from the leftmost match); `lmsGo p w i`: `w` = suffix at index `i`, `p` = character before it -/
+def lmsGo (r : RE) : Option Ch → List Ch → Nat → Option Nat
+  | p, [], i => if nullable r p none then some i else none
+  | p, c :: w, i => if prefixMatch r p (c :: w) none then some i else lmsGo r (some c) w (i + 1)
+
+def leftmostStart (r : RE) (s : List Ch) (k : Nat) : Option Nat :=
+  lmsGo r (s.take k).getLast? (s.drop k) k
+
 def anyCh : RE := .cls fun _ => true
 def searchRE (r : RE) : RE := .cat (.star anyCh) (.cat r (.star anyCh))
 /-- executable `fn:matches` oracle -/
@@ -329,14 +343,30 @@ def pQuant (o : Opts) (inp : List Ch) : Option (Option (Nat × Option Nat × Boo
   | 123 :: [] => none
   | _ => some (none, inp)
 
-/-- F&O 5.6.1 back-reference `\N`: the longest `N` not exceeding the number of groups opened so
-far; it must name a group that is already closed -/
+/-- decimal value of a digit string -/
+def digitsVal (l : List Nat) : Nat := l.foldl (fun n d => n * 10 + d) 0
+
+/-- F&O 3.1 5.6.1: "`\N` followed by further digits is a reference to the group numbered by the
+LONGEST prefix of the digit string that does not exceed the number of capturing groups opened so
+far; the remaining digits are ordinary characters" — try the longest prefix first.  (When even the
+first digit exceeds the count, the reference is that digit alone and the pattern is in error.) -/
+def bestPrefix (g : Nat) (digits : List Nat) : Nat → Nat
+  | 0 => 1
+  | 1 => 1
+  | k + 2 => if digitsVal (digits.take (k + 2)) ≤ g then k + 2 else bestPrefix g digits (k + 1)
+
+/-- (group number, the digits that remain ordinary characters) -/
+def resolveS (digits : List Nat) (g : Nat) : Nat × List Nat :=
+  let k := bestPrefix g digits digits.length
+  (digitsVal (digits.take k), digits.drop k)
+
+/-- F&O 5.6.1 back-reference `\N` (first digit `d`, then `rest`): resolved by `resolveS` against
+the groups opened so far; it must name a group that is already closed -/
 def pBackref (st : PSt) (d : Ch) (rest : List Ch) : Option (Nat × List Ch) :=
-  let rec go : Nat → List Ch → Nat × List Ch
-    | n, c :: r => if isDigit c && n * 10 + (c - 48) ≤ st.opened then go (n * 10 + (c - 48)) r else (n, c :: r)
-    | n, [] => (n, [])
-  let (n, rest') := go (d - 48) rest
-  if st.closed.contains n then some (n, rest') else none
+  let more := rest.takeWhile isDigit
+  let digits := (d - 48) :: more.map (· - 48)
+  let (n, lits) := resolveS digits st.opened
+  if st.closed.contains n then some (n, rest.drop (more.length - lits.length)) else none
 
 mutual
 /-- [64] regExp ::= branch ('|' branch)* -/
